@@ -117,7 +117,7 @@ def run(tier, seed):
             if width in (None, 80, 120):
                 # a second client of the same pool (same terminal width) while the first is still connected
                 with cap.active():
-                    s2 = Session(loop, pool, width, name="sess2")
+                    s2 = Session(loop, pool, width, name="sess2", srv=s.srv)
                     loop.run_idle()
                 evaluations += 1
                 if s2.take() != [str(pool).encode() + b"\n"] or s2.died():
@@ -131,6 +131,16 @@ def run(tier, seed):
                         got = [b.decode() for b in s2.take()]
                         if got != want or s.take():
                             viols.append({"key": "second client: command help differs / leaks into the first session", "cls": cls_name,
+                                          "width": width, "cmd": cmd, "reply": repr(got)[:200]})
+                    # ... and the first client still gets its own answers while the second one is connected
+                    for cmd, want in first_answers.items():
+                        with cap.active():
+                            s.send(cmd + " -h")
+                            loop.run_idle()
+                        evaluations += 1
+                        got = [b.decode() for b in s.take()]
+                        if got != want or s2.take():
+                            viols.append({"key": "first client's command help changed once a second client connected", "cls": cls_name,
                                           "width": width, "cmd": cmd, "reply": repr(got)[:200]})
             shutdown(loop)
     if cap.text():
